@@ -45,7 +45,8 @@ def gen_configs(check: Check):
     for e, ov, f, i in [("ModelSpec.get_model_matrix", True, "t + z", "default"), ("model_matrix", False, "t ~ z", "default"),
                         ("model_matrix", False, "t ~ z | w", "string"), ("model_matrix", False, "t + z", "nonunique"),
                         ("Formula.get_model_matrix", False, "t + hashed(A, levels=3) + z", "default"), ("materializer.get_model_matrix", False, "t + C(A) + w", "nonunique"),
-                        ("model_matrix", False, "t + z:A", "unsorted")]:
+                        ("model_matrix", False, "t + z:A", "unsorted"), ("model_matrix", False, "t + z", "range-offset"),
+                        ("ModelSpec.get_model_matrix", False, "t ~ z | w", "range-step")]:
         for c in (None, [0], [1, 2]):
             cfgs.append({"n": n, "z_nulls": [1], "w_nulls": [2], "a_nulls": [0] if "A" in na.FORMULAS[f] else [], "index": i, "formula": f, "na_action": "drop",
                          "caller": c, "entry": e, "output": "pandas", "override": ov})
